@@ -631,6 +631,27 @@ impl Program {
         }
     }
 
+    /// Returns whether the token we just consumed is an `ELSE` that ends a
+    /// single-statement `THEN` clause, i.e. whether there is a `THEN` before
+    /// it on the current line with no `:` in between.
+    pub fn is_after_else_of_then_clause(&self) -> bool {
+        let tokens = self.tokens();
+        let Some(else_index) = self.location.token_index.checked_sub(1) else {
+            return false;
+        };
+        if tokens.get(else_index) != Some(&Token::Else) {
+            return false;
+        }
+        for token in tokens[..else_index].iter().rev() {
+            match token {
+                Token::Colon => return false,
+                Token::Then => return true,
+                _ => {}
+            }
+        }
+        false
+    }
+
     /// Throw away any remaining tokens.
     pub fn discard_remaining_tokens(&mut self) {
         self.location.token_index = self.tokens().len();
